@@ -1,7 +1,7 @@
 from __future__ import annotations
 import zlib
 from ..rfc7516.models import JWEZipModel
-from ..errors import ExceededSizeError
+from ..errors import DecodeError, ExceededSizeError
 
 GZIP_HEAD = bytes([120, 156])
 MAX_SIZE = 250 * 1024
@@ -24,10 +24,14 @@ class DeflateZipModel(JWEZipModel):
             decompressor = zlib.decompressobj()
         else:
             decompressor = zlib.decompressobj(-zlib.MAX_WBITS)
-        value = decompressor.decompress(s, MAX_SIZE)
-        # all the input may have been consumed while output is still pending,
-        # try to pull one more byte to find out if the limit is exceeded
-        if decompressor.unconsumed_tail or decompressor.decompress(b"", 1):
+        try:
+            value = decompressor.decompress(s, MAX_SIZE)
+            # all the input may have been consumed while output is still pending,
+            # try to pull one more byte to find out if the limit is exceeded
+            exceeded = decompressor.unconsumed_tail or decompressor.decompress(b"", 1)
+        except zlib.error as error:
+            raise DecodeError(f"Invalid compressed data: {error}")
+        if exceeded:
             raise ExceededSizeError(f"Decompressed string exceeds {MAX_SIZE} bytes")
         return value
 
